@@ -947,6 +947,13 @@ def gen_C12(g, tier):
         lines.append(f"{c} show or {sc} {sa}")
         lines.append(f"{c} show tocomp p str {hx(ta)}")
     for _ in range(12 if tier == "quick" else 200):
+        na, nb = r.choice([1, 3, 15, 18]), r.choice([1, 5, 16, 33])
+        ta, tb = g.text(c, na), g.text(c, nb)
+        for bop in ("bitor", "bitand"):
+            lines.append(f"{c} eqfresh {bop} p str {hx(ta)} p str {hx(tb)}")
+            lines.append(f"{c} eqfresh {bop} p str {hx(tb)} p str {hx(ta)}")
+            lines.append(f"{c} raw {bop} p str {hx(ta)} p str {hx(tb)}")
+    for _ in range(12 if tier == "quick" else 200):
         n = r.choice([1, 2, 15, 16, 17, 33])
         ta, tb = g.text(c, n), g.text(c, n)
         oa, ob = r.randrange(0, 64), r.randrange(1, 64)
@@ -1054,6 +1061,10 @@ def gen_C15(g, tier):
 def gen_C19(g, tier):
     r = g.r
     lines = []
+    for n in (511, 512, 513, 1100):
+        t = g.text("dna", n)
+        lines.append(f"dna conv iupac p str {hx(t)}")
+        lines.append(f"dna conv text {offset_slice(g, 'dna', t, 5)}")
     for n in (32, 64, 96, 128, 160):
         t = g.text("dna", n)
         lines.append(f"dna conv iupac p str {hx(t)}")
@@ -1160,6 +1171,15 @@ def gen_C18(g, tier):
             ws = [r.randrange(1 << 64) for _ in range(k)]
             m = r.randrange(0, (k * 64) // w + 1)
             lines.append(f"{c} serdert fromwords {m} {k} {' '.join(map(str, ws))}")
+        if c == "iupac":
+            # results of the owned / borrowed set operations, operands of equal and unequal lengths
+            for _ in range(12 if tier == "quick" else 150):
+                na, nb = r.choice([1, 3, per - 1, per + 2]), r.choice([1, 5, per, 2 * per + 1])
+                ta, tb = g.text(c, na), g.text(c, nb)
+                for bop in ("bitor", "bitand"):
+                    lines.append(f"{c} serde {bop} p str {hx(ta)} p str {hx(tb)}")
+                    lines.append(f"{c} serdert {bop} p str {hx(tb)} p str {hx(ta)}")
+                lines.append(f"{c} serde or p str {hx(ta)} {offset_slice(g, c, tb, r.randrange(0, per))}")
         # owned sequences whose bit vector has a non-zero head (only constructible through From<&BitSlice>), and clones / edits of them
         for off in ([1, 6, 63] if tier == "quick" else range(1, 64)):
             n = r.choice([0, 1, per, per + 1, 2 * per + 1])
